@@ -136,6 +136,18 @@ def mutations(node):
         n2 = cp(node)
         n2.body, n2.orelse = n2.orelse, n2.body
         out.append(("ifexp-swap", ast.unparse(n2)))
+    # laziness: a lazy construct made eager
+    if isinstance(node, ast.GeneratorExp):
+        out.append(("eager-genexp", ast.unparse(ast.ListComp(elt=node.elt, generators=node.generators))))
+    if isinstance(node, ast.Call) and ast.unparse(node.func) in ("xmap", "xzip", "xfilter", "it.chain", "it.islice", "it.takewhile",
+                                                                 "it.tee", "it.cycle", "it.repeat", "iter", "xzip_longest",
+                                                                 "it.chain.from_iterable", "it.starmap", "it.dropwhile"):
+        if ast.unparse(node.func) not in ("it.cycle", "it.repeat"):
+            out.append(("eager-list", "iter(list(%s))" % ast.unparse(node)))
+        if node.args and ast.unparse(node.func) != "it.repeat":
+            n2 = cp(node)
+            n2.args[-1] = ast.parse("list(%s)" % ast.unparse(n2.args[-1]), mode="eval").body
+            out.append(("eager-arg", ast.unparse(n2)))
     return out
 
 
@@ -279,6 +291,7 @@ def main():
     ap = argparse.ArgumentParser()
     ap.add_argument("--props", nargs="*")
     ap.add_argument("--per-prop", type=int, default=150)
+    ap.add_argument("--kinds", nargs="*", help="only these mutation kinds")
     ap.add_argument("--seed", type=int, default=1)
     ap.add_argument("--jobs", type=int, default=16)
     ap.add_argument("--tests", action="store_true", help="phase 2: run the pinned suite on the silent mutants of --out")
@@ -384,6 +397,8 @@ def main():
             srcb, muts = collect(path, rngs)
             tree = ast.parse(srcb.decode("utf-8"))
             for kind, lineno, a, b, rep in muts:
+                if args.kinds and kind not in args.kinds:
+                    continue
                 cand.append((p["id"], rel, kind, lineno, a, b, rep, srcb, enclosing_function(tree, lineno)))
         rnd.shuffle(cand)
         # spread over kinds: round-robin by kind
